@@ -1,6 +1,7 @@
 package props
 
 import (
+	"google.golang.org/protobuf/encoding/protowire"
 	"encoding/base64"
 	"encoding/hex"
 	"fmt"
@@ -477,7 +478,59 @@ func equalModuloBound(a, b proto.Message, bound []string) bool {
 			}
 		}
 	}
+	// unknown fields are compared as FIELDS, not as the bytes that carried them: the table-driven decoder of a
+	// generated type keeps an unknown field under a re-encoded (minimal) tag, the reflective decoder behind the
+	// reference keeps the sender's bytes, so a non-minimal tag varint would make two equal readings look different
+	canonUnknown(x.ProtoReflect())
+	canonUnknown(y.ProtoReflect())
 	return proto.Equal(x, y)
+}
+
+func canonUnknown(r protoreflect.Message) {
+	if raw := r.GetUnknown(); len(raw) > 0 {
+		var out []byte
+		b := []byte(raw)
+		ok := true
+		for len(b) > 0 {
+			num, typ, n := protowire.ConsumeTag(b)
+			if n < 0 {
+				ok = false
+				break
+			}
+			m := protowire.ConsumeFieldValue(num, typ, b[n:])
+			if m < 0 {
+				ok = false
+				break
+			}
+			out = protowire.AppendTag(out, num, typ)
+			out = append(out, b[n:n+m]...)
+			b = b[n+m:]
+		}
+		if ok {
+			r.SetUnknown(out)
+		}
+	}
+	r.Range(func(fd protoreflect.FieldDescriptor, v protoreflect.Value) bool {
+		switch {
+		case fd.IsMap():
+			if fd.MapValue().Message() != nil {
+				v.Map().Range(func(_ protoreflect.MapKey, mv protoreflect.Value) bool {
+					canonUnknown(mv.Message())
+					return true
+				})
+			}
+		case fd.IsList():
+			if fd.Message() != nil {
+				l := v.List()
+				for i := 0; i < l.Len(); i++ {
+					canonUnknown(l.Get(i).Message())
+				}
+			}
+		case fd.Message() != nil:
+			canonUnknown(v.Message())
+		}
+		return true
+	})
 }
 
 func sampleURLValue(kind string) string {
